@@ -54,7 +54,12 @@ func c06Type(r *gen.Rand) *schema.Struct {
 	case 4, 5:
 		// any cell of the shared corpus: every container-of-container combination
 		// (list<map>, set<list>, map<k:set>, ...) and the static zoo types
-		return encCase(nil, r, r.Intn(encEnumerated)).S
+		for {
+			// (types with nocopy fields legitimately view the input: they have their own variant)
+			if s := encCase(nil, r, r.Intn(encEnumerated)).S; !hasNoCopy(s) {
+				return s
+			}
+		}
 	case 1:
 		tc := gen.DefaultTypeCfg()
 		tc.BigIDs = false
@@ -183,6 +188,23 @@ func runC06(c *harness.Ctx, idx int) {
 	}
 	c06Live[c06Next%len(c06Live)] = o
 	c06Next++
+	if r.Chance(1, 3) {
+		// the application reuses the destination for the next message while still
+		// holding pointers/slices of the first result: what the first decode
+		// created must stay as it was
+		v2 := c06Value(r, s)
+		m2 := ref.EncodeWith(s, v2.Elem(), &ref.EncodeOpts{Order: r.Perm})
+		c.Step("reuse destination for a second message type=%s msg=%s", s.Describe(), hexClip(m2))
+		keep := reflect.New(s.Go)
+		keep.Elem().Set(dst.Elem()) // shallow copy: same pointees, as an application holding the old result
+		o.v = keep
+		if r2 := fDecode(m2, dst.Interface()); !r2.panicked() && r2.err == nil {
+			if d := mon.CompareImage(o.pieces, o.image); d != "" {
+				c.Violation("memory-changed", "C06/reused-destination-overwrites-old-result", "decoding a second message into the same destination changed memory created by the first decode: %s", d)
+			}
+		}
+		c.Tag("variant:reused-destination")
+	}
 
 	// ---- stress epoch
 	for i := range in {
@@ -290,4 +312,16 @@ func runC06NoCopy(c *harness.Ctx, r *gen.Rand, poison bool) {
 		}
 	}
 	c.Sample(map[string]interface{}{"type": s.Describe(), "pieces": len(pieces), "variant": "nocopy"})
+}
+
+func hasNoCopy(s *schema.Struct) bool {
+	found := false
+	walkSchema(s, map[*schema.Struct]bool{}, func(st *schema.Struct) {
+		for _, f := range st.Fields {
+			if f.NoCopy {
+				found = true
+			}
+		}
+	})
+	return found
 }
